@@ -48,6 +48,61 @@ def run_rules(mod, prog: Program):
     return ctx, rep
 
 
+PRESENCE_KEYS = ("stride-assumption", "seed-transformed", "checkpoint-seed", "draw-cached", "import-time-draw", "stream-rewind", "pool-cached", "pool-read", "vectorize-read",
+                 "cached-mutation", "inplace:", "shared-history-list", "foreign-rebind", "alias-mutation", "errstate-underflow", "weights-dtype", "wrapper-stateless", "wrapper-branch",
+                 "wrapper-argument", "logl-rewritten", "logl-dtype", "partial-row-copy", "multinomial-pvals-tolerance", "rank-index", "mode-attr-write", "shared-clusterer-rebound",
+                 "spectral-floor", "row-gather", "fold-guard-jump", "fold-exact", "unpicklable-attr", "retry-loop", "iter-seed", "facade-partial-selection", "result-attr",
+                 "coord-conflict", "volume-coord-conflict", "weight-scale-conflict", "scale-conflict", "volume-scale-conflict", "conflict:", "cond:", "hazard", "seed-none-guard",
+                 "seed-truthiness-guard", "provenance:", "import:", "whole-array-write", "store-index", "user-call", "blobs-write-guard-inverted", "blobs-guard-inverted",
+                 "helper-drops-list", "list-dropped", "rewrite:", "crossed", "literal:", "labels-must-write", "split-index", "src-index", "commit-filter", "append-", "commit-once",
+                 "copy-false", "default-copy", "cov-aweights", "bincount-minlength", "producer-loop-skips", "crossed-argument", "pass-through:", "memo-reset", "memo-init",
+                 "scheme-name", "cap-last", "accept-comparison", "fresh-uniform", "dispatch:", "mapper", "mode-precedence", "wrapper-no-rng", "materialised", "pool-attr", "bisect-table")
+
+
+def _is_presence_rule(ob) -> bool:
+    """violations that consist in a found construct (lint-type) -- never downgraded"""
+    k = ob.key or ""
+    return any(p in k for p in PRESENCE_KEYS)
+
+
+def _residual_new_names(prog, prog2):
+    """short names of functions / classes that are not in the reference table and that survive normalisation"""
+    from sa import normalize
+
+    table = normalize.baseline_table()
+    p = prog2 if prog2 is not None else prog
+    names = set()
+    for f in p.functions.values():
+        if f.parent is not None:
+            continue
+        q = f"{f.module.name}:{f.short}"
+        if q not in table and not (f.name.startswith("__") and f.name.endswith("__")):
+            names.add(f.name)
+    base_classes = {q.split(":")[1].split(".")[0] for q in table if "." in q.split(":")[1]}
+    for c in p.classes.values():
+        if c.name not in base_classes and c.name not in ("ModeStatistics", "ProgressBar"):
+            names.add(c.name)
+    return names
+
+
+def _references_residual(prog, ob, residual):
+    import ast as _ast
+
+    from sa import normalize
+
+    table = normalize.baseline_table()
+    fi = next((f for f in prog.functions.values() if f.short == ob.func), None)
+    if fi is None or f"{fi.module.name}:{fi.short}" not in table:
+        return []
+    out = set()
+    for x in _ast.walk(fi.node):
+        if isinstance(x, _ast.Name) and x.id in residual:
+            out.add(x.id)
+        elif isinstance(x, _ast.Attribute) and x.attr in residual:
+            out.add(x.attr)
+    return sorted(out)
+
+
 def check(prop: str, tier: str, repo: str | None, write: bool = True) -> int:
     t0 = time.time()
     seed = int(os.environ.get("VERIF_SEED", "0") or 0)
@@ -105,6 +160,25 @@ def check(prop: str, tier: str, repo: str | None, write: bool = True) -> int:
             else:
                 ob.status = "violated"
                 new_violations.append(ob)
+        # Vocabulary guard: a "required shape not found" violation reported for a function of the reference tree that
+        # now works through new helpers / record classes which the normal form could not eliminate is not a decision
+        # about the code but about the rule's vocabulary -> undecided (exit 2), never an alarm.  Violations that consist
+        # in a *found* forbidden construct (lint-type rules) and violations inside new code are kept.
+        if new_violations and not os.environ.get("SA_NO_VOCAB_GUARD"):
+            kept = []
+            try:
+                residual = _residual_new_names(prog, locals().get("prog2"))
+            except Exception:
+                residual = set()
+            for ob in new_violations:
+                refs = _references_residual(prog, ob, residual) if residual and not _is_presence_rule(ob) else []
+                if refs:
+                    ob.status = "undecided"
+                    rep.errors.append(f"{ob.rule}: undecided in {ob.func}: the rule's required shape was not found, but the function now works through new code "
+                                      f"({', '.join(sorted(refs))[:120]}) that the normal form cannot inline -- outside the rule's vocabulary [{ob.loc}]")
+                else:
+                    kept.append(ob)
+            new_violations = kept
         # self-test of the rules (variants of the live tree held in memory)
         extra = {}
         selftest_error = None
